@@ -1145,6 +1145,9 @@ class Epoch(object):
         e = iint(365.2422 * k)
         j = q2 - e + n - 1
         x = g + k
+        if j < 1:  # The date is the last day of the previous (Julian) year
+            x -= 1
+            j += 366 if x % 4 == 0 else 365
         if j > 366 and x % 4 == 0:
             j -= 366
             x += 1
